@@ -77,15 +77,13 @@ func (rm *RpcMultiplexer) CallUnaryMethod(
 	statsHandlers []stats.Handler,
 ) (*goatorepo.Body, error) {
 
-	if err := rm.readErrorIfDone(); err != nil {
-		return nil, err
-	}
-
 	streamId := atomic.AddUint64(&rm.streamCounter, 1)
 
 	respChan := make(chan *goatorepo.Rpc, 1)
 
-	rm.registerHandler(streamId, respChan)
+	if err := rm.registerHandler(streamId, respChan); err != nil {
+		return nil, err
+	}
 	defer rm.unregisterHandler(streamId)
 
 	rpc := goatorepo.Rpc{
@@ -138,14 +136,12 @@ func (rm *RpcMultiplexer) NewStreamReadWriter(
 	ctx context.Context,
 ) (uint64, types.RpcReadWriter, func(), error) {
 
-	if err := rm.readErrorIfDone(); err != nil {
-		return 0, nil, nil, err
-	}
-
 	streamId := atomic.AddUint64(&rm.streamCounter, 1)
 
 	respChan := make(chan *goatorepo.Rpc, 1)
-	rm.registerHandler(streamId, respChan)
+	if err := rm.registerHandler(streamId, respChan); err != nil {
+		return 0, nil, nil, err
+	}
 
 	teardown := func() {
 		rm.unregisterHandler(streamId)
@@ -205,11 +201,17 @@ func (rm *RpcMultiplexer) handleResponse(rpc *goatorepo.Rpc) {
 	ch <- rpc
 }
 
-func (rm *RpcMultiplexer) registerHandler(id uint64, c chan *goatorepo.Rpc) {
+// registerHandler registers a call, unless reading from the connection has
+// already failed: a call registered after that would never be woken.
+func (rm *RpcMultiplexer) registerHandler(id uint64, c chan *goatorepo.Rpc) error {
 	rm.mutex.Lock()
 	defer rm.mutex.Unlock()
 
+	if rm.rErr != nil {
+		return rm.rErr
+	}
 	rm.handlers[id] = c
+	return nil
 }
 
 func (rm *RpcMultiplexer) unregisterHandler(id uint64) {
